@@ -7,7 +7,7 @@ package ch
 //@ import proto github.com/ClickHouse/ch-go/proto
 //@ import net net
 
-//@ valid (c *Client): c != nil ==> c.conn != nil && c.lg != nil && (c.otel ==> c.tracer != nil)
+//@ valid (c *Client): c != nil ==> c.conn != nil && c.lg != nil && (c.otel ==> c.tracer != nil) && c.writer != nil && c.compressor != nil
 //@ global ErrClosed: ErrClosed != nil
 
 // ---------------------------------------------------------------------------
@@ -120,6 +120,7 @@ package ch
 //@   requires ctx != nil && conn != nil
 //@   modifies all(ctx), all(conn)
 //@   ensures err == nil ==> c != nil {client-on-success}
+//@   ensures err == nil ==> c.writer != nil && c.compressor != nil {writer-and-compressor-always-set}
 //@   ensures err != nil ==> c == nil {never-a-usable-client-on-failure}
 
 //@ -- a connection the library itself dialed is closed when connecting fails
@@ -137,3 +138,49 @@ package ch
 //@   modifies all(c), all(ctx), all(q.Result), all(q.Logger)
 //@   ensures old(c.closed) ==> err != nil && c.conn.olen == old(c.conn.olen) && c.conn.closes == old(c.conn.closes) {closed-client-rejects-without-touching-conn}
 //@   ensures !old(c.closed) && len(q.Parameters) > 0 && old(c.protocolVersion) < 54459 ==> err != nil && c.conn.olen == old(c.conn.olen) {parameters-need-revision-54459}
+
+// ---------------------------------------------------------------------------
+// C02 / C09: blocks sent by the client.  `blanks` counts the empty terminator blocks handed to the
+// writer (ghost; incremented by encodeBlankBlock's abstract postcondition: what is tracked is the
+// call, the bytes of an empty block are Block.EncodeAware's contract in package proto).
+
+//@ ghost field (Client) blanks Int
+
+//@ contract (c *Client) metricsInc(ctx, delta) props(C02,C09,C12)
+//@   requires c != nil && ctx != nil
+//@   modifies all(ctx)
+//@   wraps
+
+//@ contract (c *Client) encodeBlock(ctx, tableName, input) (err) props(C02,C09)
+//@   requires c != nil && ctx != nil && c.writer != nil && wRI(c.writer)
+//@   modifies all(c.writer), all(input), all(ctx), all(c.compressor)
+//@   ensures wRI(c.writer) {writer-invariant-kept}
+
+//@ contract (c *Client) encodeBlankBlock(ctx) (err) props(C02,C09)
+//@   requires c != nil && ctx != nil && c.writer != nil && wRI(c.writer)
+//@   modifies all(c.writer), all(ctx), all(c.compressor), c.blanks
+//@   ensures wRI(c.writer)
+//@   ensures [abstract] (err == nil ==> c.blanks == old(c.blanks) + 1) && (err != nil ==> c.blanks == old(c.blanks))
+
+//@ -- Streamed INSERT: every round's block is flushed before the input callback runs again (so a
+//@ -- later round cannot change bytes of an earlier block, whatever was chained by reference), and
+//@ -- a successful call hands the writer exactly one terminator block, last.
+//@ contract (c *Client) sendInput(ctx, info, q) (err) props(C09)
+//@   requires c != nil && ctx != nil && c.writer != nil && wRI(c.writer)
+//@   modifies all(c.writer), all(ctx), all(c.conn), all(c.compressor), c.blanks, all(q.Input), all(info)
+//@   ensures len(q.Input) == 0 ==> err == nil && c.blanks == old(c.blanks) {no-input-nothing-sent}
+//@   ensures err == nil && len(q.Input) > 0 ==> c.blanks == old(c.blanks) + 1 {exactly-one-terminator-on-success}
+//@   ensures err != nil ==> c.blanks == old(c.blanks) {no-terminator-after-a-failure}
+//@ callsite value:f#2
+//@   assert len(c.writer.vec) == 0 && c.writer.bufOffset == 0 && len(c.writer.buf.Buf) == 0 {block-flushed-before-the-callback-runs-again}
+//@ callsite encodeBlankBlock
+//@   assert c.blanks == old(c.blanks) {terminator-is-the-last-thing-sent}
+//@ loop 0 (rangeindex)
+//@   modifies all(info), all(q.Input)
+//@   invariant c.blanks == old(c.blanks) && wRI(c.writer) && -1 <= rangeindex && rangeindex < len(info)
+//@ loop 1 (rangeindex)
+//@   modifies all(info), all(q.Input)
+//@   invariant c.blanks == old(c.blanks) && wRI(c.writer) && -1 <= rangeindex && rangeindex < len(q.Input)
+//@ loop 2 (f)
+//@   modifies all(c.writer), all(ctx), all(c.conn), all(c.compressor), all(q.Input)
+//@   invariant c.blanks == old(c.blanks) && wRI(c.writer) && len(q.Input) > 0
